@@ -1594,7 +1594,7 @@ pub fn iter_never_fails<C: Case, A: Automaton, const N: usize, const OV: bool>(a
             let _ = it.next();
             let _ = it.next();
             core::mem::forget(it);
-            cover!(true, "a constructed iterator is stepped");
+            cover!(true, "a constructed non-overlapping iterator is stepped");
         } else {
             core::mem::forget(r);
         }
@@ -1604,7 +1604,7 @@ pub fn iter_never_fails<C: Case, A: Automaton, const N: usize, const OV: bool>(a
             let _ = it.next();
             let _ = it.next();
             core::mem::forget(it);
-            cover!(true, "a constructed iterator is stepped");
+            cover!(true, "a constructed overlapping iterator is stepped");
         } else {
             core::mem::forget(r);
         }
